@@ -1,6 +1,6 @@
 From FV Require Import Common.ExtractTypes Qs.QsTypes Qs.QsModel Qs.QsFgModel.
 From Coq Require Extraction.
 From Coq Require Import ExtrOcamlBasic.
-Extraction "../build/extract/qs_model.ml" types_witness w0 gen_w_step gen_enter gen_exit gen_pop_first
+Extraction "../build/extract/qs_model.ml" types_witness w0 gen_w_step gen_w_run_rearm gen_enter gen_exit gen_pop_first
   gen_sites_ok gen_skeleton_ok gen_numagents_guarded gen_guard_ok gen_orders_sufficient
   f0 gen_f_step gen_f_run h0 gen_h_step in_quiescent.
